@@ -235,3 +235,35 @@ def po_do(S):
         S.check("with-the-snapshot", calls[-1][0] is sn)
         S.check("with-the-extra-arguments", len(calls[-1][1]) == 2 and calls[-1][1]["a"] == x and calls[-1][1]["b"] == "s")
         S.check("returns-the-action's-result", ret == n0 + 1)
+
+
+@proof("C18", "bar-loop/several-triggers-fire-on-their-denoted-bars-through-the-real-Actuator(bounded)", strength="B",
+       config={"bounded_samples": {"quick": 60, "thorough": 800}})
+def po_loop(S):
+    """bounded stand-in for the trigger block of Actuator.run (evaluate every live trigger on every bar, retire only the out-of-date
+    ones): 1-3 real triggers on one strategy — also with one retiring on the very bar on which the next one is due or first evaluated —
+    run through the real bar loop over one-minute bars; each fires on exactly the minutes its specification denotes"""
+    from fixtures import backtest_fixture as fx
+    n = S.int("bars", 4, 14)
+    k = S.int("triggers", 1, 3)
+    specs, want = [], []
+    for i in range(3):
+        kind = S.int(f"kind{i}", 0, 2)
+        a = S.int(f"a{i}", 0, 9)
+        b = S.int(f"b{i}", 1, 6)
+        imm = S.bool(f"immediately{i}")
+        if i >= k:
+            continue
+        if kind == 0:
+            specs.append(("at", a))
+            want.append([a] if a < n else [])
+        elif kind == 1:
+            specs.append(("range", a, a + b))
+            want.append([t for t in range(n) if a <= t and t < a + b])
+        else:
+            pend = a % 3
+            specs.append(("period", b, imm, pend))
+            want.append(([0] if imm else []) + [t for t in range(1, n) if t > pend and (t - pend) % b == 0])
+    got = fx.run_triggers(n, specs)
+    for i in range(k):
+        S.check(f"trigger-{i}:fires-on-exactly-the-denoted-bars", got[i] == want[i])
